@@ -20,7 +20,8 @@ BOUNDS = ("One call from an arbitrary pre-state; on every path where the call ra
           "x bounds table {none, all seven properties set} x machine state {idle, tool+coolant "
           "running}. Solver over: arguments (reals, NaN, +-inf), integer arguments, pre-state "
           "feed/power/x-coordinate, and the feed-rate, tool-power and temperature ranges "
-          "(any min<max); axes box fixed to [0,10]^3, tool-number range to [1,9].")
+          "(any min<max; the three temperature ranges are shifted copies of one symbolic range so "
+          "that they differ); axes box fixed to [0,10]^3, tool-number range to [1,9].")
 ASSUMPTIONS = [
     "pre-state values are finite and non-negative where the API requires it",
     "axes box and tool-number range are concrete ([0,10]^3, [1,9]); the other five ranges symbolic",
@@ -58,8 +59,8 @@ def _make(step, tool, coolant, bmode):
             assume(px >= 0)
             assume(px <= 10)
             bounds = {"feed-rate": (flo, fhi), "tool-power": (plo, phi),
-                      "bed-temperature": (tlo, thi), "hotend-temperature": (tlo, thi),
-                      "chamber-temperature": (tlo, thi), "tool-number": (1, 9),
+                      "bed-temperature": (tlo, thi), "hotend-temperature": (tlo + 1000, thi + 1000),
+                      "chamber-temperature": (tlo - 1000, thi - 1000), "tool-number": (1, 9),
                       "axes": ((0.0, 0.0, 0.0), (10.0, 10.0, 10.0))}
         pre = mkpre(pos=(px, 2.0, 3.0), tool=tool, coolant=coolant, feed=feed,
                     power=power if tool else 0, bounds=bounds)
